@@ -323,6 +323,53 @@ func runC17(r *Run) {
 				fmt.Sprintf("the decreasing result is reachable where the gas figure is not below the target, or its delta is not target − used (target−used: %v, used−target: %v)", tm, um), P.witness(w)...)
 		}
 	}
+
+	// ---------- R4: the inputs of the next base fee are recorded on every block and survive a genesis restart ----------
+	r.Rule("R4", "PATH.gas-wanted-recorded: GasWantedDecorator reaches next only through an error-checked AddTransientGasWanted(ctx, feeTx.GetGas()) except over the tabled bypass edges (not a FeeTx / before London, GetBaseFeeEnabled() false) — the declared gas of every transaction enters the block figure whenever the fee market is enabled, whatever the current base fee; feemarket InitGenesis restores the previous block's figure (SetBlockGasWanted(GenesisState.BlockGas)) so the first block after an export/import restart computes the same base fee as the uninterrupted chain")
+	if gw, ok := P.FnOK("(app/ante/evm.GasWantedDecorator).AnteHandle"); ok {
+		next := nextCallPred(gw)
+		isAdd := isCallMatching(func(ci CallInfo) bool {
+			if ci.Name != "AddTransientGasWanted" || !errHandled(ci.Instr) {
+				return false
+			}
+			return backSlice(argN(ci.Instr, 1)).HasCall(func(g CallInfo) bool { return g.Name == "GetGas" })
+		})
+		var bypass []Edge
+		_, notEnabled := guardPassEdges(gw, func(cond ssa.Value) (bool, bool) {
+			c, ok := callNamed(cond, "GetBaseFeeEnabled")
+			return true, ok && c != nil
+		})
+		bypass = append(bypass, notEnabled...)
+		_, notLondon := guardPassEdges(gw, func(cond ssa.Value) (bool, bool) {
+			c, ok := callNamed(cond, "IsLondon")
+			return true, ok && c != nil
+		})
+		bypass = append(bypass, notLondon...)
+		// comma-ok assertion to sdk.FeeTx failing
+		for _, b := range gw.Blocks {
+			if ifi, ok := lastIf(b); ok {
+				if e, ok := ifi.Cond.(*ssa.Extract); ok && e.Index == 1 {
+					if ta, ok := e.Tuple.(*ssa.TypeAssert); ok && ta.CommaOk && namedName(ta.AssertedType) == "FeeTx" {
+						bypass = append(bypass, Edge{b, 1})
+					}
+				}
+			}
+		}
+		w := PathQuery{Fn: gw, Block: isAdd, Target: next, DelEdge: edgeSet(bypass)}.Search()
+		r.Check(w == nil && len(notEnabled) > 0, "R4", fnID(gw)+"#records-declared-gas", P.Pos(fnPos(gw)), "next only after AddTransientGasWanted(feeTx.GetGas()) (bypass: not FeeTx, pre-London, base fee disabled)",
+			"a transaction can pass the gas-wanted decorator without its declared gas being added to the block's figure although the fee market is enabled (the condition is no longer GetBaseFeeEnabled alone): the stored figure misses declared gas, e.g. in every block whose base fee is 0, and the base fee cannot rise", P.witness(w)...)
+	} else {
+		r.Bad("R4", "anchor/GasWantedDecorator.AnteHandle", "", "not found")
+	}
+	if ig, ok := P.FnOK("x/feemarket.InitGenesis"); ok {
+		isSet := isCallMatching(func(ci CallInfo) bool {
+			return ci.Name == "SetBlockGasWanted" && backSlice(argN(ci.Instr, 1)).HasField("GenesisState", "BlockGas")
+		})
+		w := PathQuery{Fn: ig, Block: isSet, Target: func(in ssa.Instruction) bool { _, ok := in.(*ssa.Return); return ok }}.Search()
+		r.Check(w == nil, "R4", fnID(ig)+"#restores-block-gas", P.Pos(fnPos(ig)), "SetBlockGasWanted(GenesisState.BlockGas) on every path", "feemarket InitGenesis does not restore the previous block's gas figure: after an export/import restart the first block computes its base fee from 0 instead of the parent block's figure", P.witness(w)...)
+	} else {
+		r.Bad("R4", "anchor/feemarket.InitGenesis", "", "not found")
+	}
 }
 
 // resolveLocal: a load of a local variable that is assigned exactly once (e.g. because a deferred
